@@ -110,7 +110,7 @@ def send_cases(rng, n, single_faults=True):
     for nr in (1, 2):
         base = happy(rng, ["8BITMIME"], nr)
         for i, (pos, (reply, _)) in enumerate(base):
-            for nlines in (12, 24):
+            for nlines in (12, 24, 70, 130):       # 70 / 130: beyond any 'reasonable' bound a client might put on the number of lines (round 7: C04/m20)
                 code = reply[:3]
                 long = b"".join(code + (b" " if k == nlines - 1 else b"-") + (b"line %02d of a long but perfectly legal reply text" % k) + b"\r\n" for k in range(nlines))
                 steps = [s for _, s in base]
